@@ -432,10 +432,19 @@ func absFunctionCalculator(parameters []*variants.Variant,
 	result := variants.EmptyVariant()
 	switch value.Type() {
 	case variants.Integer:
-		result.SetAsInteger(int(math.Abs(float64(value.AsInteger()))))
+		// Integers are negated in their own type: float64 cannot hold them all
+		intValue := value.AsInteger()
+		if intValue < 0 {
+			intValue = -intValue
+		}
+		result.SetAsInteger(intValue)
 		break
 	case variants.Long:
-		result.SetAsLong(int64(math.Abs(float64(value.AsLong()))))
+		longValue := value.AsLong()
+		if longValue < 0 {
+			longValue = -longValue
+		}
+		result.SetAsLong(longValue)
 		break
 	case variants.Float:
 		result.SetAsFloat(float32(math.Abs(float64(value.AsFloat()))))
